@@ -85,7 +85,7 @@ pub fn singleton_remove__KEY_TMP_LIQUIDATOR(storage: &mut dyn Storage)
 // ---- position bucket: key = sha3_256(vamm bytes || trader bytes). NOT extracted (hash code): assumed to be a map
 //      keyed by the (vamm, trader) pair (collision-free; no ambiguity of the concatenation for real addresses) ----
 pub open spec fn default_position() -> Position {
-    Position { vamm: Addr { s: Ghost(Seq::empty()) }, trader: Addr { s: Ghost(Seq::empty()) }, direction: Direction::AddToAmm,
+    Position { vamm: Addr { s: Ghost(""@) }, trader: Addr { s: Ghost(""@) }, direction: Direction::AddToAmm,
         size: Integer { value: Uint128(0), negative: false }, margin: Uint128(0), notional: Uint128(0),
         last_updated_premium_fraction: Integer { value: Uint128(0), negative: false }, block_number: 0 }
 }
